@@ -106,6 +106,54 @@ func vc02_div() {
 	vreach("end")
 }
 
+// the big-integer implementation on operands of int64 size and on operands
+// just beyond it (one more bit), every operator
+func vc02_bigops() {
+	a, b := vsym_i64(), vsym_i64()
+	x, y := big.NewInt(a), big.NewInt(b)
+	if vsym_bool() {
+		// beyond int64: a + 2^63 style operands built with the model's own Add
+		x = new(big.Int).Add(x, new(big.Int).SetUint64(1<<63))
+	}
+	c1, c2 := intConst{i: x}, intConst{i: y}
+	ops := []ast.OperatorType{ast.OperatorAddition, ast.OperatorSubtraction, ast.OperatorDivision, ast.OperatorModulo,
+		ast.OperatorBitAnd, ast.OperatorBitOr, ast.OperatorXor, ast.OperatorAndNot}
+	op := ops[vsym_choice(len(ops))]
+	got, err := c1.binaryOp(op, c2)
+	if (op == ast.OperatorDivision || op == ast.OperatorModulo) && b == 0 {
+		vassert(err != nil, "division-by-zero-is-an-error")
+		return
+	}
+	vassert(err == nil, "no-error")
+	want := new(big.Int)
+	switch op {
+	case ast.OperatorAddition:
+		want.Add(x, y)
+	case ast.OperatorSubtraction:
+		want.Sub(x, y)
+	case ast.OperatorDivision:
+		want.Quo(x, y)
+	case ast.OperatorModulo:
+		want.Rem(x, y)
+	case ast.OperatorBitAnd:
+		want.And(x, y)
+	case ast.OperatorBitOr:
+		want.Or(x, y)
+	case ast.OperatorXor:
+		want.Xor(x, y)
+	case ast.OperatorAndNot:
+		want.AndNot(x, y)
+	}
+	vassert(vbigOf(got).Cmp(want) == 0, "exact-big-result")
+	// comparisons
+	i := vsym_choice(len(vcmpOps))
+	cr, err := c1.binaryOp(vcmpOps[i], c2)
+	cb, ok := cr.(boolConst)
+	c := x.Cmp(y)
+	vassert(err == nil && ok && bool(cb) == []bool{c == 0, c != 0, c < 0, c <= 0, c > 0, c >= 0}[i], "exact-big-comparison")
+	vreach("end")
+}
+
 var vcmpOps = []ast.OperatorType{ast.OperatorEqual, ast.OperatorNotEqual, ast.OperatorLess, ast.OperatorLessEqual, ast.OperatorGreater, ast.OperatorGreaterEqual}
 
 func vc02_cmp() {
@@ -302,6 +350,7 @@ func vh_c02_mul_q()        { vc02_mul() }
 func vh_c02_div_q()        { vc02_div() }
 func vh_c02_divlemma_q()   { vc02_divlemma() }
 func vh_c02_cmp_q()        { vc02_cmp() }
+func vh_c02_bigops_q()     { vc02_bigops() }
 func vh_c02_unary_q()      { vc02_unary() }
 func vh_c02_repr_int_q()   { vc02_repr_int() }
 func vh_c02_repr_float_q() { vc02_repr_float() }
